@@ -276,9 +276,10 @@ def _route_check(P, f, strip, consts):
                             if 'options' in o_.attrs:
                                 o_.attrs['options'] = ADict({}, open_=True, taint=['ARG'], name='options')
                                 o_.attrs['options'].valkinds = frozenset(['str'])
-                            if '_content' in o_.attrs and o_.cls.name == 'DiffXFileDiffSection':
-                                o_.attrs['_content'] = Unk('diff', kinds=['bytes'], taint=['ARG'])
-                                o_.attrs['_content'].facts.add('truthy')
+                            cs_ = D_.content_slot()
+                            if cs_ in o_.attrs and o_.cls.name == 'DiffXFileDiffSection':
+                                o_.attrs[cs_] = Unk('diff', kinds=['bytes'], taint=['ARG'])
+                                o_.attrs[cs_].facts.add('truthy')
                         I.frames = []
                         args.append(dom)
                         continue
